@@ -111,6 +111,8 @@ pub struct Plan {
     pub swake_pm: u32,
     pub batch_pm: u32,
     pub cancel_at: Option<u32>,
+    /// F-stuck (async kinds): gates that never become ready (a branch that stays pending forever)
+    pub stuck: BTreeSet<(u32, u32)>,
 }
 
 impl Default for Plan {
@@ -126,6 +128,7 @@ impl Default for Plan {
             swake_pm: 0,
             batch_pm: 0,
             cancel_at: None,
+            stuck: BTreeSet::new(),
         }
     }
 }
@@ -178,6 +181,7 @@ impl Global {
                 swake_pm: 0,
                 batch_pm: 0,
                 cancel_at: None,
+                stuck: BTreeSet::new(),
             },
             log: Vec::new(),
             occ: BTreeMap::new(),
